@@ -450,12 +450,38 @@ func (e *env) pluginOp(w []string) string {
 		if !ok1 || !ok2 || !ok3 || !ok4 || !ok5 {
 			return "bad-op"
 		}
-		h := map[string]string{}
-		if v, ok := optDec(raw); ok {
-			h[e.hdr] = v
+		// the Retry-After value arrives under `hn` (default: the configured name); `via=wire` sends the header block
+		// through utils.ParseHeaders, as routing/messages_handler.go does (names come out lower-cased)
+		name := e.hdr
+		wire := false
+		if e.mode == "throttle" {
+			if hn, ok := kvS(w[1:], "hn"); ok {
+				name = hn
+			}
+			if via, ok := proto.KV(w[1:], "via"); ok {
+				if via != "wire" {
+					return "bad-op"
+				}
+				wire = true
+			}
 		}
-		if v, ok := optDec(tagw); ok {
-			h["X-Tag"] = v
+		h := map[string]string{}
+		if wire {
+			block := ""
+			if v, ok := optDec(raw); ok {
+				block += name + ": " + v + "\r\n"
+			}
+			if v, ok := optDec(tagw); ok {
+				block += "X-Tag: " + v + "\r\n"
+			}
+			h = utils.ParseHeaders(&block)
+		} else {
+			if v, ok := optDec(raw); ok {
+				h[name] = v
+			}
+			if v, ok := optDec(tagw); ok {
+				h["X-Tag"] = v
+			}
 		}
 		resp := lunarMessages.OnResponse{ID: id, Method: m, URL: u, Status: int(st), Body: body, Headers: h}
 		var act actions.RespLunarAction
@@ -491,8 +517,9 @@ func (e *env) pluginOp(w []string) string {
 			return "noop"
 		case *actions.EarlyResponseAction:
 			e.cnt(e.mode + "-replay")
-			tag, hasTag := a.Headers["X-Tag"]
-			ra, hasRa := a.Headers[e.hdr]
+			// header names are case-insensitive for the observer: report the value whatever the case of its name
+			tag, hasTag := foldGet(a.Headers, "X-Tag")
+			ra, hasRa := foldGet(a.Headers, e.hdr)
 			extra := len(a.Headers)
 			if hasTag {
 				extra--
@@ -525,6 +552,24 @@ func (e *env) pluginOp(w []string) string {
 
 // exec runs one case; if the process could not be brought to quiescence (machine overloaded) the case is
 // run again from scratch, and a persistent failure is reported loudly instead of producing unreliable answers.
+// foldGet looks a header up ignoring the letter case of its name (exact name first; then the smallest matching key).
+func foldGet(h map[string]string, name string) (string, bool) {
+	if v, ok := h[name]; ok {
+		return v, true
+	}
+	keys := make([]string, 0, len(h))
+	for k := range h {
+		if strings.EqualFold(k, name) {
+			keys = append(keys, k)
+		}
+	}
+	if len(keys) == 0 {
+		return "", false
+	}
+	sort.Strings(keys)
+	return h[keys[0]], true
+}
+
 func exec(c proto.Case, o *proto.Out) []string {
 	for attempt := 0; attempt < 3; attempt++ {
 		if !waitIdle() {
